@@ -19,7 +19,7 @@ from typing import Callable
 
 class Node:
     __slots__ = ("sid", "parent", "shield", "cancelled", "deadline", "active", "kind",
-                 "cancel_cause", "entered_at", "fuzzy_until")  # fmt: skip
+                 "cancel_cause", "entered_at", "fuzzy_until", "shield_at")  # fmt: skip
 
     def __init__(self, sid: str, kind: str, shield: bool = False, deadline: float = math.inf):
         self.sid = sid
@@ -35,6 +35,7 @@ class Node:
         # before the group's done-callback really does: until that cycle has passed,
         # decisions that read the flag synchronously accept both outcomes
         self.fuzzy_until: int = -1
+        self.shield_at: int = -100  # cycle in which the shield was last switched on
 
 
 class Shadow:
@@ -97,6 +98,9 @@ class Shadow:
             self.touch()
 
     def set_shield(self, n: Node, value: bool) -> None:
+        if value and not n.shield:
+            n.shield_at = self.now()[1]
+
         n.shield = value
         self.touch()
 
